@@ -382,7 +382,12 @@ func coreHistory(c *Ctx, d *coreDrv) {
 					}
 					if s.bound[k] == "" && c.chance(0.25) {
 						// a new allocation reported on a node the core does not know: must be rejected without any trace
-						emitAndAbsorb(map[string]interface{}{"op": "alloc", "app": a.app, "key": s.newKey("k"), "node": "n-unknown", "res": encRes(s.askRes()), "ph": false, "tg": "", "ctime": 1})
+						// (a brand-new key, or the placement / resize of an outstanding ask: the ask then stays as it was)
+						uk := k
+						if c.chance(0.5) {
+							uk = s.newKey("k")
+						}
+						emitAndAbsorb(map[string]interface{}{"op": "alloc", "app": a.app, "key": uk, "node": "n-unknown", "res": encRes(s.askRes()), "ph": a.ph, "tg": a.tg, "ctime": 1})
 					} else {
 						nr := a.res
 						if c.chance(0.5) {
